@@ -150,9 +150,9 @@ class TransformDict:
         """
         if not isinstance(key, TransformKey):
             src, dst = key
-        else:
-            src = key.src
-            dst = key.dst
+            key = self.load_key(src, dst)
+        src = key.src
+        dst = key.dst
 
         if src == dst:
             s = len(args)
